@@ -1,2 +1,2 @@
 SPECIFICATION Spec
-INVARIANTS Prefix QuietEqual SentInOrder NotAccepted
+INVARIANTS Prefix QuietEqual SentInOrder
